@@ -36,12 +36,52 @@ def double_images(x: "float"):
     ensures(of_f64_bits(f64_bits(x)) == x)
 
 
-@assumed("lemmas:unpack_rep")
+@lemma("lemmas:unpack_len")
+def unpack_len(b: "arr", k: "int"):
+    option("auto_for", "unpack_bits")
+    ensures(len(unpack_bits(b, k)) == (8 * k if k > 0 else 0))
+    decreases(k)
+    if k > 0:
+        unpack_len(b, k - 1)
+
+
+@lemma("lemmas:unpack_allbits")
+def unpack_allbits(b: "arr", k: "int"):
+    ensures(all_bits(unpack_bits(b, k)))
+    decreases(k)
+    if k > 0:
+        unpack_allbits(b, k - 1)
+
+
+@lemma("lemmas:unpack_byte")
+def unpack_byte(b: "arr", k: "int", q: "int"):
+    """binary expansion: byte q of the packing of the first k bytes' bits is byte q"""
+    requires(bytes_ok(b) and 0 <= q and q < k and k <= arr_len(b))
+    ensures(byte_of(unpack_bits(b, k), q) == arr_get(b, q))
+    decreases(k)
+    if q < k - 1:
+        unpack_byte(b, k - 1, q)
+
+
+@lemma("lemmas:unpack_facts")
+def unpack_facts(b: "arr", k: "int"):
+    requires(bytes_ok(b) and 0 <= k and k <= arr_len(b))
+    ensures(len(unpack_bits(b, k)) == 8 * k)
+    ensures(all_bits(unpack_bits(b, k)))
+    ensures(forall(0, k, lambda q: byte_of(unpack_bits(b, k), q) == arr_get(b, q)))
+    option("no_unfold", ["unpack_bits"])
+    loop(0, over="range(k)", invariant=lambda it: forall(0, it, lambda q: byte_of(unpack_bits(b, k), q) == arr_get(b, q)))
+    unpack_allbits(b, k)
+    for q in range(k):
+        unpack_byte(b, k, q)
+
+
+@lemma("lemmas:unpack_rep")
 def unpack_rep(b: "arr"):
-    note("binary expansion: a string of bytes in 0..255 is the canonical packing of its 8*len bits (bits_of_bytes), LSB first")
-    option("auto_for", "bits_of_bytes")
+    """a string of bytes in 0..255 is the canonical packing of its 8*len bits"""
     requires(bytes_ok(b))
     ensures(Rep(b, bits_of_bytes(b)) and len(bits_of_bytes(b)) == 8 * arr_len(b))
+    unpack_facts(b, arr_len(b))
 
 
 @lemma("lemmas:max_is_enum_max")
